@@ -627,6 +627,7 @@ def Val.isContainer : Val → Bool
 /-- the parameterless types used as keys of a format map -/
 inductive Key where
   | any | scalar | numeric | int | float | str | bool | bin | arr | hash | coll | undef | dflt | regexp
+  | obj | typ                    -- the default Object and Type types: keys of DefaultFormats; no modelled value has these kinds
   deriving DecidableEq, Repr
 
 /-- `px.IsAssignable(key, v.PType())` for parameterless key types -/
@@ -638,6 +639,7 @@ def Key.accepts : Key → Kind → Bool
   | .bin, k => k = .bin | .arr, k => k = .arr | .hash, k => k = .hash
   | .coll, k => k = .arr || k = .hash
   | .undef, k => k = .undef | .dflt, k => k = .dflt | .regexp, k => k = .regexp
+  | .obj, _ => false | .typ, _ => false
 
 /-- a Format with its container formats (`none` = nil: DefaultContainerFormats are used) -/
 inductive FTree where
@@ -662,6 +664,152 @@ def getFormat (m : FMap) (k : Kind) : FTree :=
   | none => defaultTree
 
 def cfOf (t : FTree) : FMap := t.cf.getD defaultCF
+
+/-! ### per-type format maps given by the user: `newFormatContext3` → `mergeFormats(DefaultFormats, NewFormatMap(h))`
+    (types/format.go).  The key types are the parameterless types of `Key`. -/
+
+/-- `px.IsAssignable(a, b)` on the key types (tied to the lattice model by `Key.sub_eq_asg`, Proofs/FormatMerge.lean, and
+    to the implementation by the driver op `keysub` on all pairs) -/
+def Key.sub : Key → Key → Bool
+  | .any, _ => true
+  | .scalar, b => b = .scalar || b = .numeric || b = .int || b = .float || b = .str || b = .bool || b = .regexp
+  | .numeric, b => b = .numeric || b = .int || b = .float
+  | .coll, b => b = .coll || b = .arr || b = .hash
+  | a, b => a = b
+
+/-- `typeRank` -/
+def Key.rank : Key → Nat
+  | .numeric | .int | .float => 13
+  | .str => 12
+  | .arr => 4
+  | .hash => 2
+  | _ => 0
+
+/-- `Type.String()` of the key types -/
+def Key.name : Key → String
+  | .any => "Any" | .scalar => "Scalar" | .numeric => "Numeric" | .int => "Integer" | .float => "Float" | .str => "String"
+  | .bool => "Boolean" | .bin => "Binary" | .arr => "Array" | .hash => "Hash" | .coll => "Collection" | .undef => "Undef"
+  | .dflt => "Default" | .regexp => "Regexp" | .obj => "Object" | .typ => "Type"
+
+/-- how many of the keys accept `k` (`mergeFormats`, after fix 77ca16d: the primary sort key) -/
+def acceptors (keys : List Key) (k : Key) : Nat := (keys.filter (fun o => Key.sub o k)).length
+
+/-- the order of the merged map: more acceptors first (a key comes before every key that accepts it), then the lower
+    rank, then the name — a lexicographic comparison of three totally ordered components, total on distinct keys, so
+    EVERY sorting algorithm answers the same list (`sort.SliceStable` in Go, insertion sort here) -/
+def entryLess (keys : List Key) (a b : Key) : Bool :=
+  let na := acceptors keys a
+  let nb := acceptors keys b
+  if na != nb then decide (na > nb)
+  else if a.rank != b.rank then decide (a.rank < b.rank)
+  else decide (a.name < b.name)
+
+/-- insert into a list sorted by `less` (stable: after the elements that are not greater) -/
+def insSorted {α} (less : α → α → Bool) (x : α) : List α → List α
+  | [] => [x]
+  | y :: ys => if less x y then x :: y :: ys else y :: insSorted less x ys
+
+def insertionSort {α} (less : α → α → Bool) (xs : List α) : List α :=
+  xs.foldr (fun x acc => insSorted less x acc) []
+
+def lookupKey (m : List (Key × FTree)) (k : Key) : Option FTree := (m.find? (fun e => e.1 = k)).map (·.2)
+
+/-- `List.Unique()` on keys: the first occurrence stays, the order is kept -/
+def dedupKeys : List Key → List Key
+  | [] => []
+  | k :: ks => k :: (dedupKeys ks).filter (fun o => o != k)
+
+/-- the exact key type of a kind -/
+def Kind.key : Kind → Key
+  | .int => .int | .float => .float | .str => .str | .bool => .bool | .undef => .undef | .dflt => .dflt
+  | .bin => .bin | .regexp => .regexp | .arr => .arr | .hash => .hash
+
+/-- the default (lower) entries that stay: an entry is dropped when a DIFFERENT user key accepts its key -/
+def normLowerOf (lo hi : List (Key × FTree)) : List (Key × FTree) :=
+  lo.filter (fun e => !((hi.map (·.1)).any (fun h => h != e.1 && Key.sub h e.1)))
+
+/-- the keys of the merged map in the order `mergeFormats` meets them: the remaining defaults, then the user's new keys -/
+def mergedKeys (lo hi : List (Key × FTree)) : List Key :=
+  dedupKeys ((normLowerOf lo hi).map (·.1) ++ hi.map (·.1))
+
+/-- one entry per key: both sides → merged by `mt`, one side → that side's entry -/
+def mergedEntries (mt : FTree → FTree → FTree) (lo hi : List (Key × FTree)) : List (Key × FTree) :=
+  (mergedKeys lo hi).filterMap (fun k =>
+    match lookupKey (normLowerOf lo hi) k, lookupKey hi k with
+    | some l, some h => some (k, mt l h)
+    | some l, none => some (k, l)
+    | none, some h => some (k, h)
+    | none, none => none)
+
+/-- the final order of the merged map -/
+def sortEntries (m : List (Key × FTree)) : List (Key × FTree) :=
+  insertionSort (fun a b => entryLess (m.map (·.1)) a.1 b.1) m
+
+mutual
+/-- `merge(low, high)`: everything from `high`, the separators from `low` where `high` has none, the container formats merged -/
+def mergeTree : Nat → FTree → FTree → FTree
+  | 0, _, high => high
+  | fuel + 1, low, high =>
+    let sep := match high.f.sep with | some s => some s | none => low.f.sep
+    let sep2 := match high.f.sep2 with | some s => some s | none => low.f.sep2
+    .mk { high.f with sep := sep, sep2 := sep2 } (mergeMaps fuel low.cf high.cf)
+/-- `mergeFormats(lower, higher)`; `none` = nil -/
+def mergeMaps : Nat → Option (List (Key × FTree)) → Option (List (Key × FTree)) → Option (List (Key × FTree))
+  | 0, _, higher => higher
+  | fuel + 1, lower, higher =>
+    match lower, higher with
+    | none, h => h
+    | some [], h => h
+    | l, none => l
+    | l, some [] => l
+    | some lo, some hi => some (sortEntries (mergedEntries (mergeTree fuel) lo hi))
+end
+
+/-- `DefaultContainerFormats`, whose container entries hold `DefaultContainerFormats` again (a cycle in Go): unrolled
+    `n` levels; at level 0 the entries hold nil, which RENDERS the same (`cfOf`) but merges differently — the driver
+    refuses user maps nested deeper than the unrolling -/
+def dcf : Nat → List (Key × FTree)
+  | 0 =>
+    [(.obj, .mk (basicFmt 'p' (some " => ".toList) (some '(')) none), (.typ, .mk (basicFmt 'p' (some " => ".toList) (some '(')) none),
+     (.float, .mk (simpleFmt 'p') none), (.numeric, .mk (simpleFmt 'p') none),
+     (.arr, .mk (basicFmt 'p' (some [',']) (some '[')) none), (.hash, .mk (basicFmt 'p' (some " => ".toList) (some '{')) none),
+     (.bin, .mk (simpleFmt 'p') none), (.any, .mk (simpleFmt 'p') none)]
+  | n + 1 =>
+    [(.obj, .mk (basicFmt 'p' (some " => ".toList) (some '(')) (some (dcf n))), (.typ, .mk (basicFmt 'p' (some " => ".toList) (some '(')) (some (dcf n))),
+     (.float, .mk (simpleFmt 'p') none), (.numeric, .mk (simpleFmt 'p') none),
+     (.arr, .mk (basicFmt 'p' (some [',']) (some '[')) (some (dcf n))), (.hash, .mk (basicFmt 'p' (some " => ".toList) (some '{')) (some (dcf n))),
+     (.bin, .mk (simpleFmt 'p') none), (.any, .mk (simpleFmt 'p') none)]
+
+/-- `DefaultFormats` -/
+def defaultFormats (n : Nat) : List (Key × FTree) :=
+  [(.obj, .mk (basicFmt 'p' (some " => ".toList) (some '(')) (some (dcf n))), (.typ, .mk (basicFmt 'p' (some " => ".toList) (some '(')) (some (dcf n))),
+   (.float, .mk (simpleFmt 'f') none), (.numeric, .mk (simpleFmt 'd') none),
+   (.arr, .mk (basicFmt 'a' (some [',']) (some '[')) (some (dcf n))), (.hash, .mk (basicFmt 'h' (some " => ".toList) (some '{')) (some (dcf n))),
+   (.bin, .mk (simpleFmt 'B') none), (.any, .mk (simpleFmt 's') none)]
+
+/-- how deep the user's `string_formats` nest (a map without nested maps: 1) -/
+def mapDepth : Nat → List (Key × FTree) → Nat
+  | 0, _ => 0
+  | fuel + 1, m => 1 + (m.map (fun e => match e.2.cf with | some m' => mapDepth fuel m' | none => 0)).foldl max 0
+
+/-- the widest map anywhere in the user's tree -/
+def mapWidth : Nat → List (Key × FTree) → Nat
+  | 0, _ => 0
+  | fuel + 1, m => (m.map (fun e => match e.2.cf with | some m' => mapWidth fuel m' | none => 0)).foldl max m.length
+
+/-- the keys of every map of the user's tree are pairwise different (a Hash never holds a key twice) -/
+def mapKeysDistinct : Nat → List (Key × FTree) → Bool
+  | 0, _ => true
+  | fuel + 1, m =>
+    ((m.map (·.1)).eraseDups.length == m.length) &&
+    m.all (fun e => match e.2.cf with | some m' => mapKeysDistinct fuel m' | none => true)
+
+/-- the unrolling depth of the default tables and the fuel of the merge -/
+def mergeDepth : Nat := 4
+
+/-- `newFormatContext3(value, hash)`: the format map of the context -/
+def contextMap (user : List (Key × FTree)) : List (Key × FTree) :=
+  (mergeMaps (2 * mergeDepth + 2) (some (defaultFormats mergeDepth)) (some user)).getD []
 
 /-! ### indentation -/
 
